@@ -1,6 +1,6 @@
 (* Properties/C05.v — walk visits the rendered tree: same nodes, same order, consistent facts. *)
 From Coq Require Import List Ascii String.
-From GT Require Import Base.GoStr Tree.Tree Tree.Grower Out.Spreader Out.Walker Spec.Spec Proofs.Paths Proofs.Walk.
+From GT Require Import Base.GoStr Tree.Tree Tree.Grower Out.Spreader Out.Walker Spec.Spec Api.Simple Proofs.Paths Proofs.Walk Proofs.SpelledTop Proofs.Extras.
 Import ListNotations.
 
 (* every node once, in pre-order, with exactly the facts of the top-down specification
@@ -41,6 +41,18 @@ Print Assumptions C05_first_error_stops.
 Theorem C05_iter_break : forall k g, walk_iter (Some k) g = firstn (S k) (visits_of [g]).
 Proof. reflexivity. Qed.
 Print Assumptions C05_iter_break.
+
+(* from the bytes: walking ANY spelling of a forest visits the specification's visit list of
+   the forest's tries, up to and including the first visit whose callback fails *)
+Theorem C05_walk_spelled : forall bf cb sp f,
+  spells sp f -> all_names_ok (map trie_of f) ->
+  walk_md (walk_cfg bf) cb (bytes_of sp) =
+  match first_fail cb 0 (List.length (spec_visits bf (map trie_of f))) with
+  | Some k => (firstn (S k) (spec_visits bf (map trie_of f)), Err (ECallback k))
+  | None => (spec_visits bf (map trie_of f), Ok tt)
+  end.
+Proof. exact walk_spelled. Qed.
+Print Assumptions C05_walk_spelled.
 
 Definition s (x : string) : str := list_ascii_of_string x.
 Definition t1 := T (s "r") [T (s "a") [T (s "x") []]; T (s "b") []].
